@@ -575,6 +575,7 @@ func c11(c *core.Check) {
 	c11GrowingLists(c)
 	c11EndSpacing(c)
 	c11DeadArithmetic(c)
+	c11StrutCacheKey(c)
 	r9 := c.Rule("R9", "running extrema: every guarded update `if a < b { c = a }` of the inline layout and text code compares the new value with the variable it updates (the line's running top, bottom, width …): a comparison with another variable overwrites the extremum instead of extending it", 33)
 	extremumRule(c, r9, "html/layout", 10)
 	extremumRule(c, r9, "text", 2)
@@ -596,6 +597,7 @@ func returnStringSets(p *core.Prog, fn *ssa.Function) []string {
 
 func c12(c *core.Check) {
 	p := c.Prog
+	c12PageMarginsRerun(c)
 	c.Explain = "Thin structural clauses of page breaking: the forced and avoid break vocabularies tested by layout are exactly the CSS Fragmentation sets (with column variants only inside columns), every computed break value the validators can produce is classified, `always` computes to `page`, the between-siblings resolution prefers forced over avoid over auto, and the :nth() page arithmetic divides only by a non-zero step. Page geometry, break positions, orphans/widows and blank pages are not decided. Also decided: (R5) pageWidthOrHeight folded for all auto combinations; (R6) the orphans/widows tests as normalised linear inequalities.  (R7) recto/verso sides for both directions and the start/end page names read at breaks."
 	r1 := c.Rule("R1", "forcePageBreak tests {page,left,right,recto,verso} (+column in columns); avoidPageBreak tests {avoid,avoid-page} (+avoid-column in columns); blockLevelPageBreak's side set is {left,right,recto,verso} and its choice table lets page/column override everything and avoid* override auto; every break-before/after/inside value the validators emit (after always→page) is forced, avoid or auto", 38)
 	fpb := p.Fn("html/layout", "forcePageBreak")
